@@ -166,66 +166,86 @@ def missingValue : CDiag := (.invalidating, "Missing value in coordinate atoms d
 def isHydrogenRow (vals : List (Option CifValue)) : Bool :=
   ((colText ((vals[23]?).join)).val.getD []) == ['H']
 
-/-- one kept row of the atom_site loop; `vals` are the 27 looked-up columns in the order of `atomColumns` -/
-def atomRowCore (onlyFirstModel : Bool) (s : AState) (vals : List (Option CifValue)) : AState :=
+/-- a mandatory column: the value, or the row is abandoned with one more diagnostic -/
+def reqCol {α : Type} (c : Col α) (s : AState) : Option α × AState :=
+  match c.val, c.err with
+  | some v, _ => (some v, { s with exact := s.exact && c.exact })
+  | none, [] => (none, { s with errors := s.errors ++ [missingValue] })
+  | none, e => (none, { s with errors := s.errors ++ e })
+
+/-- the cells of a row the parser insists on, in the order it asks for them -/
+structure RowCells where
+  name : List Char
+  id : List Char
+  resName : List Char
+  resNum : Int
+  chain : List Char
+  x : Flt
+  y : Flt
+  z : Flt
+
+/-- the residue number of a row: the author's, else the label's, else the number of residues read so far -/
+def rowResNum (s : AState) (vals : List (Option CifValue)) : Int × AState :=
   let col (i : Nat) : Option CifValue := (vals[i]?).join
-  let cEl := colText (col 23)
-  let element := cEl.val.getD []
-  let cMod := colUsize (col 18)
-  let s := { s with errors := s.errors ++ cMod.err, exact := s.exact && cEl.exact && cMod.exact }
-  let modelNumber := cMod.val.getD 1
-  let (s, skip) :=
-    if onlyFirstModel then
-      match s.firstModel with
-      | none => ({ s with firstModel := some modelNumber }, false)
-      | some f => (s, modelNumber != f)
-    else (s, false)
-  if skip then s else
-  let cGroup := colText (col 15)
-  let atomType := cGroup.val.getD "ATOM".toList
-  let s := { s with exact := s.exact && cGroup.exact }
-  -- a mandatory column: value, or the row is abandoned with one more diagnostic
-  let req {α : Type} (c : Col α) (s : AState) : Option α × AState :=
-    match c.val, c.err with
-    | some v, _ => (some v, { s with exact := s.exact && c.exact })
-    | none, [] => (none, { s with errors := s.errors ++ [missingValue] })
-    | none, e => (none, { s with errors := s.errors ++ e })
-  match req (colText (col 19)) s with
-  | (none, s) => s
-  | (some name, s) =>
-  match req (colText (col 16)) s with
-  | (none, s) => s
-  | (some id, s) =>
-  match req (colText (col 14)) s with
-  | (none, s) => s
-  | (some resName, s) =>
   let cAuthSeq := colIsize (col 22)
   let s := { s with errors := s.errors ++ cAuthSeq.err, exact := s.exact && cAuthSeq.exact }
-  let (resNum, s) : Int × AState :=
-    match cAuthSeq.val with
-    | some n => (n, s)
-    | none =>
-      let cSeq := colIsize (col 21)
-      let s := { s with errors := s.errors ++ cSeq.err, exact := s.exact && cSeq.exact }
-      (cSeq.val.getD (totalResidues s.models : Nat), s)
+  match cAuthSeq.val with
+  | some n => (n, s)
+  | none =>
+    let cSeq := colIsize (col 21)
+    let s := { s with errors := s.errors ++ cSeq.err, exact := s.exact && cSeq.exact }
+    (cSeq.val.getD (totalResidues s.models : Nat), s)
+
+/-- the chain id of a row: the author's, else the (mandatory) label id -/
+def rowChain (s : AState) (vals : List (Option CifValue)) : Option (List Char) × AState :=
+  let col (i : Nat) : Option CifValue := (vals[i]?).join
   let cAuthAsym := colText (col 11)
   let s := { s with exact := s.exact && cAuthAsym.exact }
-  let chainRes : Option (List Char) × AState :=
-    match cAuthAsym.val with
-    | some c => (some c, s)
-    | none => req (colText (col 10)) s
-  match chainRes with
-  | (none, s) => s
+  match cAuthAsym.val with
+  | some c => (some c, s)
+  | none => reqCol (colText (col 10)) s
+
+/-- the mandatory cells of a row (`none`: the row is abandoned; the state has the diagnostic). Only
+`errors` and `exact` of the state change. -/
+def rowCells (s : AState) (vals : List (Option CifValue)) : Option RowCells × AState :=
+  let col (i : Nat) : Option CifValue := (vals[i]?).join
+  match reqCol (colText (col 19)) s with
+  | (none, s) => (none, s)
+  | (some name, s) =>
+  match reqCol (colText (col 16)) s with
+  | (none, s) => (none, s)
+  | (some id, s) =>
+  match reqCol (colText (col 14)) s with
+  | (none, s) => (none, s)
+  | (some resName, s) =>
+  match rowResNum s vals with
+  | (resNum, s) =>
+  match rowChain s vals with
+  | (none, s) => (none, s)
   | (some chain, s) =>
-  match req (colF64 (col 24)) s with
-  | (none, s) => s
+  match reqCol (colF64 (col 24)) s with
+  | (none, s) => (none, s)
   | (some x, s) =>
-  match req (colF64 (col 25)) s with
-  | (none, s) => s
+  match reqCol (colF64 (col 25)) s with
+  | (none, s) => (none, s)
   | (some y, s) =>
-  match req (colF64 (col 26)) s with
-  | (none, s) => s
-  | (some z, s) =>
+  match reqCol (colF64 (col 26)) s with
+  | (none, s) => (none, s)
+  | (some z, s) => (some ⟨name, id, resName, resNum, chain, x, y, z⟩, s)
+
+/-- the optional cells of a row -/
+structure RowOpt where
+  occ : Flt
+  b : Flt
+  charge : Int
+  alt : Option (List Char)
+  ins : Option (List Char)
+  aniso : Option (List Flt)
+
+/-- the optional cells (occupancy, B-factor, charge, alternate location, insertion code, the nine tensor cells);
+only `errors` and `exact` of the state change -/
+def rowOptional (s : AState) (vals : List (Option CifValue)) : RowOpt × AState :=
+  let col (i : Nat) : Option CifValue := (vals[i]?).join
   let cOcc := colF64 (col 20)
   let cB := colF64 (col 12)
   let cCh := colIsize (col 13)
@@ -235,56 +255,103 @@ def atomRowCore (onlyFirstModel : Bool) (s : AState) (vals : List (Option CifVal
   let s := { s with
     errors := s.errors ++ cOcc.err ++ cB.err ++ cCh.err ++ an.flatMap (·.err),
     exact := s.exact && cOcc.exact && cB.exact && cCh.exact && cAlt.exact && cIns.exact && an.all (·.exact) }
-  let occ := cOcc.val.getD (fltInt 1)
-  let b := cB.val.getD (fltInt 1)
-  let charge := cCh.val.getD 0
   let (aniso, s) : Option (List Flt) × AState :=
     if an.all (·.val.isSome) then (some (an.filterMap (·.val)), s)
     else if an.any (·.val.isSome) then
       (none, { s with errors := s.errors ++ [(.strictWarning, "Atom aniso U definition incomplete")] })
     else (none, s)
-  -- identifiers the structs refuse
+  (⟨cOcc.val.getD (fltInt 1), cB.val.getD (fltInt 1), cCh.val.getD 0, cAlt.val, cIns.val, aniso⟩, s)
+
+/-- the model with the row's number: found, or appended empty -/
+def rowModel (models : List Model) (modelNumber : Nat) : List Model × Nat :=
+  match models.findIdx? (·.serial == modelNumber) with
+  | some i => (models, i)
+  | none => (models ++ [{ serial := modelNumber, chains := [] }], models.length)
+
+/-- the tensor cells on the atom -/
+def withTensor (atom : Atom) (aniso : Option (List Flt)) : Atom × Bool :=
+  match aniso with
+  | none => (atom, true)
+  | some m =>
+    match m.mapM (·.micro?) with
+    | some ints => ({ atom with atf := some ints }, true)
+    | none => ({ atom with atf := some (List.replicate 9 0) }, false)   -- presence matters to `validate`
+
+/-- the record type of the row: hetero flag, and a diagnostic for anything but ATOM / HETATM -/
+def atomKind (atomType : List Char) : Bool × List CDiag :=
+  if atomType == "ATOM".toList then (false, [])
+  else if atomType == "HETATM".toList then (true, [])
+  else (false, [(.invalidating, "Atom type not correct")])
+
+/-- `Model::add_atom` on the model at position `mi` (nothing happens when the identifiers are refused) -/
+def placeIn (models : List Model) (mi : Nat) (op : RawMOp) : List Model :=
+  match models[mi]? with
+  | none => models
+  | some m =>
+    match m.addAtom op with
+    | none => models
+    | some m' => models.set mi m'
+
+/-- `Atom::new` from the cells and `Model::add_atom` into the row's model -/
+def placeAtom (s : AState) (modelNumber : Nat) (atomType element : List Char) (c : RowCells) (o : RowOpt) : AState :=
   let sOf (l : List Char) : String := String.ofList l
-  if (prepareIdentifier chain).isNone || (prepareIdentifierUpper resName).isNone ||
-      (match cIns.val with | some ic => (prepareIdentifierUpper ic).isNone | none => false) then
-    { s with errors := s.errors ++ [(.invalidating, "Invalid identifier")] }
-  else
-  -- find or create the model
-  let (models, mi) : List Model × Nat :=
-    match s.models.findIdx? (·.serial == modelNumber) with
-    | some i => (s.models, i)
-    | none => (s.models ++ [{ serial := modelNumber, chains := [] }], s.models.length)
+  let rm := rowModel s.models modelNumber
   let curCount : Nat :=
     match s.counts.find? (·.1 == modelNumber) with
     | some c => c.2
-    | none => ((models[mi]?).map (·.atomCount)).getD 0
+    | none => ((rm.1[rm.2]?).map (·.atomCount)).getD 0
   let counts := if (s.counts.find? (·.1 == modelNumber)).isSome then s.counts else s.counts ++ [(modelNumber, curCount)]
-  let s := { s with models := models, counts := counts }
-  let (hetero, s) : Bool × AState :=
-    if atomType == "ATOM".toList then (false, s)
-    else if atomType == "HETATM".toList then (true, s)
-    else (false, { s with errors := s.errors ++ [(.invalidating, "Atom type not correct")] })
-  match atomNew hetero curCount id name x y z occ b element charge with
-  | none => { s with errors := s.errors ++ [(.invalidating, "Atom definition incorrect")] }
-  | some (atom, ex) =>
-    let (atom, exA) : Atom × Bool :=
-      match aniso with
-      | none => (atom, true)
-      | some m =>
-        match m.mapM (·.micro?) with
-        | some ints => ({ atom with atf := some ints }, true)
-        | none => ({ atom with atf := some (List.replicate 9 0) }, false)   -- presence matters to `validate`
-    let s := { s with exact := s.exact && ex && exA }
-    let s := if s.ids.contains atom.id then
-        { s with dupIds := if s.dupIds.contains atom.id then s.dupIds else s.dupIds ++ [atom.id] }
-      else { s with ids := s.ids ++ [atom.id] }
-    let s := { s with counts := s.counts.map fun c => if c.1 == modelNumber then (c.1, curCount + 1) else c }
-    match models[mi]? with
-    | none => s
-    | some m =>
-      match m.addAtom (sOf chain, ((resNum, cIns.val.map sOf), ((sOf resName, cAlt.val.map sOf), atom))) with
-      | none => s
-      | some m' => { s with models := s.models.set mi m' }
+  let kind := atomKind atomType
+  let errors := s.errors ++ kind.2
+  match atomNew kind.1 curCount c.id c.name c.x c.y c.z o.occ o.b element o.charge with
+  | none => { s with models := rm.1, counts := counts, errors := errors ++ [(.invalidating, "Atom definition incorrect")] }
+  | some (atom0, ex) =>
+    let wt := withTensor atom0 o.aniso
+    { models := placeIn rm.1 rm.2 (sOf c.chain, ((c.resNum, o.ins.map sOf), ((sOf c.resName, o.alt.map sOf), wt.1))),
+      errors := errors,
+      exact := s.exact && ex && wt.2,
+      counts := counts.map fun k => if k.1 == modelNumber then (k.1, curCount + 1) else k,
+      firstModel := s.firstModel,
+      ids := if s.ids.contains wt.1.id then s.ids else s.ids ++ [wt.1.id],
+      dupIds := if s.ids.contains wt.1.id then (if s.dupIds.contains wt.1.id then s.dupIds else s.dupIds ++ [wt.1.id])
+        else s.dupIds }
+
+/-- the atom of a row whose mandatory cells are `c`, and its place: optional cells, the identifiers the structs
+refuse, the model found or created, `Atom::new`, the tensor, `Model::add_atom` -/
+def placeRow (s : AState) (vals : List (Option CifValue)) (modelNumber : Nat) (atomType element : List Char)
+    (c : RowCells) : AState :=
+  match rowOptional s vals with
+  | (o, s) =>
+  -- identifiers the structs refuse
+  if (prepareIdentifier c.chain).isNone || (prepareIdentifierUpper c.resName).isNone ||
+      (match o.ins with | some ic => (prepareIdentifierUpper ic).isNone | none => false) then
+    { s with errors := s.errors ++ [(.invalidating, "Invalid identifier")] }
+  else placeAtom s modelNumber atomType element c o
+
+/-- `only_first_model`: the first kept row fixes the model number, rows of other models are skipped -/
+def firstModelGate (onlyFirstModel : Bool) (s : AState) (modelNumber : Nat) : AState × Bool :=
+  if onlyFirstModel then
+    match s.firstModel with
+    | none => ({ s with firstModel := some modelNumber }, false)
+    | some f => (s, modelNumber != f)
+  else (s, false)
+
+/-- one kept row of the atom_site loop; `vals` are the 27 looked-up columns in the order of `atomColumns` -/
+def atomRowCore (onlyFirstModel : Bool) (s : AState) (vals : List (Option CifValue)) : AState :=
+  let col (i : Nat) : Option CifValue := (vals[i]?).join
+  let cEl := colText (col 23)
+  let element := cEl.val.getD []
+  let cMod := colUsize (col 18)
+  let s := { s with errors := s.errors ++ cMod.err, exact := s.exact && cEl.exact && cMod.exact }
+  let modelNumber := cMod.val.getD 1
+  let g := firstModelGate onlyFirstModel s modelNumber
+  if g.2 then g.1 else
+  let cGroup := colText (col 15)
+  let atomType := cGroup.val.getD "ATOM".toList
+  let s := { g.1 with exact := g.1.exact && cGroup.exact }
+  match rowCells s vals with
+  | (none, s) => s
+  | (some c, s) => placeRow s vals modelNumber atomType element c
 
 /-- one row of the atom_site loop: hydrogens are dropped first when asked for -/
 def atomRow (o : ReadOpts) (s : AState) (vals : List (Option CifValue)) : AState :=
